@@ -515,7 +515,9 @@ class Checker:
             for sig in sigs:
                 st.violation(
                     sig,
-                    {"events": list(evs), "wset": self.wset, "streams": list(streams), "full": full},
+                    {"events": list(evs), "wset": self.wset, "streams": list(streams), "full": full,
+                     # the complete file, for readers of the artefact (only the few stored cases carry it)
+                     "pdf": self.bench.make_doc(list(streams)) if st.viol_counts[sig] < st.MAX_VIOL_PER_SIG else b""},
                     gfx.fl(exp), obs if exc is None else gfx.exc_sig(exc),
                     f"{what}: differs in {','.join(bad)}" + (f" (explained by {len(sigs)} causes together)" if len(sigs) > 1 else ""),
                 )
